@@ -16,6 +16,8 @@ typestate) keeps one vocabulary:
   wildcard or a bare capture is the `if/elif/else` chain Python defines it to be (`==` for
   values, `is` for singletons; the subject is evaluated once).
 
+* `with contextlib.suppress(A, B): body` is `try: body / except (A, B): pass`.
+
 Nothing here depends on the repository; a construct that does not fit is
 returned unchanged.
 """
@@ -214,6 +216,32 @@ class Desugar(ast.NodeTransformer):
     def visit_Expr(self, node):
         self.generic_visit(node)
         return self._hoist_stmt(node, "value")
+
+    # ------------------------------------------- contextlib.suppress(...)
+    def visit_With(self, node):
+        self.generic_visit(node)
+        if len(node.items) != 1 or node.items[0].optional_vars is not None:
+            return node
+        ce = node.items[0].context_expr
+        if not (isinstance(ce, ast.Call) and ce.args and not ce.keywords):
+            return node
+        f = ce.func
+        name = f.id if isinstance(f, ast.Name) else (
+            "%s.%s" % (f.value.id, f.attr) if isinstance(f, ast.Attribute)
+            and isinstance(f.value, ast.Name) else None)
+        if name not in ("contextlib.suppress", "suppress"):
+            return node
+        # with suppress(A, B): body   is   try: body / except (A, B): pass
+        typ = ce.args[0] if len(ce.args) == 1 else ast.Tuple(
+            elts=list(ce.args), ctx=ast.Load())
+        h = ast.ExceptHandler(type=typ, name=None,
+                              body=[ast.copy_location(ast.Pass(), node)])
+        t = ast.Try(body=node.body, handlers=[h], orelse=[], finalbody=[])
+        for x in (h, t):
+            ast.copy_location(x, node)
+        ast.fix_missing_locations(t)
+        self.changed.append("suppress")
+        return t
 
     # ------------------------------------------------------------ match
     def visit_Match(self, node):
